@@ -263,10 +263,13 @@ pub fn gen_dyn(r: &mut Rng, o: &DynOpts, depth: usize) -> Dyn {
             _ => r.next() as i64 >> r.below(64),
         }),
         7 => Dyn::I128(if o.wide_ints {
-            match r.below(5) {
+            match r.below(9) {
                 0 => i128::MIN,
                 1 => i128::MAX,
                 2 => -(1i128 << 64),
+                // the 64-bit boundaries, where the DOM route switches between Ok and Err
+                3 => *r.pick(&[i64::MIN as i128, i64::MIN as i128 - 1, i64::MIN as i128 + 1, i64::MAX as i128, i64::MAX as i128 + 1]),
+                4 => *r.pick(&[u64::MAX as i128, u64::MAX as i128 + 1, u64::MAX as i128 - 1, 0, -1]),
                 _ => (((r.next() as u128) << 64) | r.next() as u128) as i128 >> r.below(128),
             }
         } else {
@@ -281,9 +284,10 @@ pub fn gen_dyn(r: &mut Rng, o: &DynOpts, depth: usize) -> Dyn {
             _ => r.next() >> r.below(64),
         }),
         12 => Dyn::U128(if o.wide_ints {
-            match r.below(4) {
+            match r.below(6) {
                 0 => u128::MAX,
                 1 => 1u128 << 64,
+                2 => *r.pick(&[u64::MAX as u128, u64::MAX as u128 + 1, u64::MAX as u128 - 1, i64::MAX as u128, i64::MAX as u128 + 1]),
                 _ => (((r.next() as u128) << 64) | r.next() as u128) >> r.below(128),
             }
         } else {
